@@ -310,7 +310,7 @@ for _p, _rs in _ROUND2.items():
         PROPS[_p]["decided"] += "; also: " + _extra
 
 # rules added after the third round of independent mutations (DESIGN.md 12.8)
-_ROUND3 = {'C16': ['R-REBORROW'], 'C02': ['R-REBORROW', 'R-DUP-FORGET', 'R-OWNING-ITER', 'R-CLONE-GUARD-RANGE', 'R-DROP-ORDER', 'R-PAR-CONSUME', 'R-LINEAR-INNER', 'R-TAG-CONSTS', 'R-BITMASK-DEFS', 'R-ARG-ORDER', 'R-ZST-DROP', 'R-FORGET-WINDOW'], 'C14': ['R-REBORROW', 'R-KEEP-KEY', 'R-ARG-ORDER'], 'C15': ['R-REBORROW'], 'C03': ['R-PAR-CONSUME', 'R-SIBLING-FORWARD', 'R-ZST-DROP', 'R-GROUP-DEFS', 'R-AUTO', 'R-FORGET-WINDOW'], 'C10': ['R-PAR-CONSUME', 'R-ZST-PTR', 'R-DUP-FORGET', 'R-ZST-DROP'], 'C06': ['R-ZST-PTR', 'R-BULKDROP-GUARD', 'R-SIBLING-FORWARD', 'R-BITMASK-DEFS', 'R-ARG-ORDER'], 'C09': ['R-ZST-PTR', 'R-ACCT', 'R-TAG-CONSTS', 'R-BITMASK-DEFS'], 'C01': ['R-HINT-LOWER', 'R-SIBLING-FORWARD', 'R-TAG-CONSTS', 'R-BITMASK-DEFS', 'R-ARG-ORDER', 'R-GROUP-DEFS'], 'C07': ['R-LINK', 'R-SIBLING-FORWARD', 'R-ARG-ORDER'], 'C12': ['R-TRY-WRAPPERS', 'R-SIBLING-FORWARD'], 'C08': ['R-CAP-WRAPPERS', 'R-HINT-LOWER', 'R-SIBLING-FORWARD'], 'C05': ['R-BUCKET-FRESH', 'R-RESERVE-FIRST', 'R-TAG-CONSTS', 'R-BITMASK-DEFS', 'R-GROUP-DEFS', 'R-ZST-DROP'], 'C11': ['R-SIBLING-FORWARD', 'R-FORGET-WINDOW', 'R-ZST-DROP', 'R-DROP-ORDER'], 'C13': ['R-TAG-CONSTS', 'R-GROUP-DEFS'], 'C17': ['R-TAG-CONSTS'], 'C19': ['R-ARG-ORDER'], 'C04': ['R-ZST-DROP', 'R-FORGET-WINDOW']}
+_ROUND3 = {'C16': ['R-REBORROW'], 'C02': ['R-REBORROW', 'R-DUP-FORGET', 'R-OWNING-ITER', 'R-CLONE-GUARD-RANGE', 'R-DROP-ORDER', 'R-PAR-CONSUME', 'R-LINEAR-INNER', 'R-TAG-CONSTS', 'R-BITMASK-DEFS', 'R-ARG-ORDER', 'R-ZST-DROP', 'R-FORGET-WINDOW'], 'C14': ['R-REBORROW', 'R-KEEP-KEY', 'R-ARG-ORDER'], 'C15': ['R-REBORROW'], 'C03': ['R-PAR-CONSUME', 'R-SIBLING-FORWARD', 'R-ZST-DROP', 'R-GROUP-DEFS', 'R-AUTO', 'R-FORGET-WINDOW'], 'C10': ['R-PAR-CONSUME', 'R-ZST-PTR', 'R-DUP-FORGET', 'R-ZST-DROP'], 'C06': ['R-ZST-PTR', 'R-BULKDROP-GUARD', 'R-SIBLING-FORWARD', 'R-BITMASK-DEFS', 'R-ARG-ORDER'], 'C09': ['R-ZST-PTR', 'R-ACCT', 'R-TAG-CONSTS', 'R-BITMASK-DEFS', 'R-FORWARD'], 'C01': ['R-HINT-LOWER', 'R-SIBLING-FORWARD', 'R-TAG-CONSTS', 'R-BITMASK-DEFS', 'R-ARG-ORDER', 'R-GROUP-DEFS'], 'C07': ['R-LINK', 'R-SIBLING-FORWARD', 'R-ARG-ORDER'], 'C12': ['R-TRY-WRAPPERS', 'R-SIBLING-FORWARD', 'R-FORWARD'], 'C08': ['R-CAP-WRAPPERS', 'R-HINT-LOWER', 'R-SIBLING-FORWARD'], 'C05': ['R-BUCKET-FRESH', 'R-RESERVE-FIRST', 'R-TAG-CONSTS', 'R-BITMASK-DEFS', 'R-GROUP-DEFS', 'R-ZST-DROP'], 'C11': ['R-SIBLING-FORWARD', 'R-FORGET-WINDOW', 'R-ZST-DROP', 'R-DROP-ORDER'], 'C13': ['R-TAG-CONSTS', 'R-GROUP-DEFS'], 'C17': ['R-TAG-CONSTS', 'R-INFALLIBLE', 'R-LAYOUT-SOURCE', 'R-FALLIBLE-THREAD'], 'C19': ['R-ARG-ORDER'], 'C04': ['R-ZST-DROP', 'R-FORGET-WINDOW']}
 _ROUND3_CLAUSE = {
     "R-REBORROW": "a by-reference method of a mutable-access handle (entry, IterMut, Drain, ..) never returns the handle's own collection lifetime (R-REBORROW)",
     "R-PAR-CONSUME": "the parallel drain leaf forgets its producer only when its cursor is exhausted, every taken element is consumed (R-PAR-CONSUME)",
@@ -320,6 +320,10 @@ _ROUND3_CLAUSE = {
     "R-KEEP-KEY": "insert on an occupied entry replaces exactly the value of the stored pair (R-KEEP-KEY)",
     "R-HINT-LOWER": "space reserved ahead of extend/from_iter is sized from the lower size_hint bound only (R-HINT-LOWER)",
     "R-LINK": "a set's table is never replaced without its hasher (R-LINK)",
+    "R-INFALLIBLE": "capacity overflow is reported through the Fallibility parameter, never as a bare Err (R-INFALLIBLE)",
+    "R-LAYOUT-SOURCE": "block and control pointers are related by calculate_layout_for's ctrl_offset in both directions; the Layout reaches the allocator untouched (R-LAYOUT-SOURCE)",
+    "R-FALLIBLE-THREAD": "fallibility is threaded unchanged (R-FALLIBLE-THREAD)",
+    "R-FORWARD": "iterator wrappers forward next/size_hint/fold/len to their inner cursor (R-FORWARD)",
     "R-FORGET-WINDOW": "no table-owning value sits in a ManuallyDrop while user code can run (R-FORGET-WINDOW)",
     "R-ZST-DROP": "NEEDS_DROP is mem::needs_drop and no destructor site or rehash drop function is gated on the element size: zero-sized elements with Drop are dropped (R-ZST-DROP)",
     "R-GROUP-DEFS": "the SSE2 scans select lanes by the sign bit (both special tags) or by equality with one tag exactly where their contract says so (R-GROUP-DEFS)",
@@ -352,8 +356,8 @@ for _p, _rs in _ROUND3.items():
 # shared mechanisms, so the core-table rules are attached to every property whose statement quantifies over table behaviour.
 CORE_TABLE = ["R-PROBE-STOP", "R-PROBE-STEP", "R-SAME-GROUP", "R-CTRL-WRITE", "R-ACCT", "R-SLOT-PROVENANCE", "R-SLOT-FRESH", "R-BUCKET-FRESH",
               "R-RESERVE-GUARD", "R-REHASH-DECISION", "R-REHASH-LOOP", "R-SWEEP-RANGE", "R-RESIZE-TARGET", "R-ZST-PTR", "R-GROUP-DEFS",
-              "R-TAG-CONSTS", "R-BITMASK-DEFS", "R-CURSOR-STATE", "R-ITEMS-GUARD", "R-ERASE-BEFORE", "R-HASH-TAINT", "R-INDEX-BOUNDED", "R-ARG-ORDER"]
-for _p in ("C01", "C02", "C05", "C06", "C07", "C09", "C10", "C11", "C13", "C14"):
+              "R-TAG-CONSTS", "R-BITMASK-DEFS", "R-CURSOR-STATE", "R-ITEMS-GUARD", "R-ERASE-BEFORE", "R-HASH-TAINT", "R-INDEX-BOUNDED", "R-ARG-ORDER", "R-DROPGLUE"]
+for _p in ("C01", "C02", "C05", "C06", "C07", "C09", "C10", "C11", "C13", "C14", "C15"):
     _added = []
     for _r in CORE_TABLE:
         if _r not in PROPS[_p]["rules"]:
